@@ -5,7 +5,7 @@ patch=$1; tier=$2; shift 2
 cd "$(dirname "$0")"; mkdir -p work
 if ! git -C /repo diff --quiet; then echo "/repo has uncommitted changes; refusing"; exit 2; fi
 git -C /repo apply "$patch" || { echo "patch does not apply"; exit 2; }
-trap 'git -C /repo checkout -- . ; git -C /repo clean -fdq src' EXIT INT TERM
+trap 'git -C /repo checkout -- . ; git -C /repo clean -fdq src; git checkout -q -- evidence' EXIT INT TERM
 for p in "$@"; do
   s=$(date +%s)
   ./check $p $tier > work/mut_$p.log 2>&1
